@@ -20,7 +20,7 @@ import (
 var (
 	flagBound  = flag.Int("bound", -1, "deviation bound override")
 	flagDemo   = flag.Bool("demo", false, "print the synchronous default schedule and exit")
-	flagDevs   = flag.String("devs", "", "deviation kinds override (letters of w x t b c)")
+	flagDevs   = flag.String("devs", "", "deviation kinds override (letters of w x t b c r l g)")
 	flagMaxH   = flag.Int("maxh", 0, "height bound override")
 	flagNoSub  = flag.Bool("nosub", false, "no subsets")
 	flagProf   = flag.String("cpuprofile", "", "write a CPU profile")
@@ -38,7 +38,7 @@ func main() {
 	debug.SetGCPercent(300)
 	debug.SetMemoryLimit(10 << 30)
 	r := vk.New("model_checking")
-	r.SetBudget(110*time.Second, 25*time.Minute)
+	r.SetBudget(150*time.Second, 25*time.Minute)
 	if *flagProf != "" {
 		f, _ := os.Create(*flagProf)
 		pprof.StartCPUProfile(f)
@@ -58,7 +58,10 @@ func main() {
 		"a node's own proposal/votes (internalMsgQueue) are handled by the node before any further peer message (FIFO, run to quiescence) and are published after the node handled them, as the reactor does",
 		"messages are delivered with the original signer as peer id; the reactor's gossip selection is replaced by the explorer (any delivery order it could produce is a schedule of the model)",
 		"per-node step function memoised on a complete deep digest of RoundState + sm.State + ticker + signing record; every violation and a sample of schedules are re-validated by unmemoised replays on fresh real nodes",
-		"byzantine sends that do not change the recipient's behaviour state at once are postponed (they stay available later); withholding is per message and recipient set with three release points (next round, after the prevote step of the next round, never + explicit release)",
+		"byzantine sends that do not change the recipient's behaviour state at once are postponed (they stay available later); withholding is per message and recipient set with four release points (next round, after the prevote step of the next round, prevotes also: a later round than the next, never + explicit release)",
+		"the byzantine key signs every vote with a timestamp menu {t0,t1,t2}: a vote a node already holds is re-sent as a re-signed copy that differs only in timestamp (the k-th copy a node gets carries t_k: timestamps are interchangeable); one byzantine send = optional +2/3 claim, the vote, and further re-signed copies for as long as the recipient reacts; byte-identical re-delivery is assumed to be a no-op (static filter, self-checked with -checkfilter)",
+		"bounded progress is judged twice from every leaf: synchrony at once, and late synchrony (byzantine validator silent at once, no gossip and withheld messages kept back until every honest node has entered a later round, then everything is delivered)",
+		"scenario 'prevote-phase-deviations': deviation bound 3 over withheld (late) prevotes and byzantine prevotes for rounds already entered only, blocks A and B identified; scenario 'byzantine-deviations': bound 2 over byzantine sends only, on top of an honestly behaving byzantine validator",
 		"small scope: 4 validators of equal power, 1 byzantine (proposer of height 1 round 0), heights <= 2, rounds <= 2, empty mempool, kvstore application",
 	)
 	cov := map[string]any{}
@@ -135,14 +138,25 @@ func main() {
 	}
 
 	// (2) deviation-bounded search around the synchronous schedule
-	base := Params{maxStates: 2500000, maxH: 2, maxR: 2, devW: true, devDrop: true, devT: true, devB: true, devC: true, subsets: false, activeOnly: true, progR: 4, progAll: !r.Quick()}
+	base := Params{maxStates: 2500000, maxH: 2, maxR: 2, devW: true, devDrop: true, devT: true, devB: true, devC: true, devR: true, devL: true, lateGST: true, subsets: false, activeOnly: true, progR: 4, progAll: !r.Quick()}
+	// byzantine-only deviations (sends, +2/3 claims, re-signed copies) on top of an honestly behaving byzantine validator: one
+	// more deviation than the all-kinds scenario affords (equivocation needs the honest vote, the lie and the block parts)
+	byzOnly := base
+	byzOnly.byzHonest, byzOnly.bound, byzOnly.maxH = true, 2, 1
+	byzOnly.devW, byzOnly.devDrop, byzOnly.devT, byzOnly.devL = false, false, false, false
+	// prevote-phase deviations only (withheld / late prevotes, byzantine prevotes), one more deviation: split locks need an
+	// asymmetric polka (2 deviations) and a second polka for another block (1 deviation); liveness is judged from the leaves
+	pv := base
+	pv.byzHonest, pv.bound, pv.maxH = false, 3, 1
+	pv.devDrop, pv.devT, pv.devC, pv.devR, pv.prevoteVoc = false, false, false, false, true
 	var scens []scen
 	if r.Quick() {
 		a := base
 		a.byzHonest, a.bound = true, 1
 		b := base
 		b.byzHonest, b.bound, b.maxH = false, 2, 1
-		scens = []scen{{"byz-honest-by-default/h<=2", a}, {"byz-silent-by-default/h<=1", b}}
+		scens = []scen{{"byz-honest-by-default/h<=2", a}, {"byz-honest-by-default/h<=1/byzantine-deviations", byzOnly},
+			{"byz-silent-by-default/h<=1/prevote-phase-deviations", pv}, {"byz-silent-by-default/h<=1", b}}
 	} else {
 		a := base
 		a.byzHonest, a.bound = true, 2
@@ -151,9 +165,18 @@ func main() {
 		c := base
 		c.byzHonest, c.bound, c.maxH, c.maxStates = false, 3, 1, 3000000
 		c.devW, c.devT = false, false // bound 3 over drops / releases and byzantine sends only (closes within the budget)
-		scens = []scen{{"byz-silent-by-default/h<=2", b}, {"byz-honest-by-default/h<=2", a}, {"byz-silent-by-default/h<=1/drop+byzantine-deviations", c}}
+		byzOnly.bound, byzOnly.maxStates = 3, 1500000
+		scens = []scen{{"byz-silent-by-default/h<=2", b}, {"byz-honest-by-default/h<=2", a}, {"byz-silent-by-default/h<=1/prevote-phase-deviations", pv},
+			{"byz-honest-by-default/h<=1/byzantine-deviations", byzOnly}, {"byz-silent-by-default/h<=1/drop+byzantine-deviations", c}}
+	}
+	exact := false
+	for _, sc := range scens {
+		exact = exact || sc.name == *flagScen
 	}
 	for _, sc := range scens {
+		if exact && sc.name != *flagScen {
+			continue
+		}
 		if *flagBound >= 0 {
 			sc.p.bound = *flagBound
 		}
@@ -163,6 +186,7 @@ func main() {
 		if *flagDevs != "" {
 			d := *flagDevs
 			sc.p.devW, sc.p.devDrop, sc.p.devT, sc.p.devB, sc.p.devC = strings.Contains(d, "w"), strings.Contains(d, "x"), strings.Contains(d, "t"), strings.Contains(d, "b"), strings.Contains(d, "c")
+			sc.p.devR, sc.p.devL, sc.p.lateGST = strings.Contains(d, "r"), strings.Contains(d, "l"), strings.Contains(d, "g")
 		}
 		if *flagMaxH > 0 {
 			sc.p.maxH = int64(*flagMaxH)
